@@ -5,7 +5,9 @@ BASELINE = "cd /repo && /venv/bin/python -m pytest -ra -q -p no:cacheprovider --
 COMMON_NOTE = ("Trusted: TLC 1.8 evaluating the TLA+ modules under /verif/spec (written from the standards' field tables), "
                "the attribute-reading adapters in harness/vp/ops_*.py, and the convention that values >= 2^31 travel as "
                "big-endian octet lists. Bounded grids are exhaustive; beyond them inputs are enumerated per field or sampled "
-               "from VERIF_SEED - not a proof for all inputs.")
+               "from VERIF_SEED - not a proof for all inputs. Every adapter applies the history / aliasing / ownership / "
+               "spelling probes of DESIGN.md I.7 around the call under test, and the calls the repository's own tests make are "
+               "recorded (pytest plugin, no source edit) and validated by TLC as one more stage (DESIGN.md I.2).")
 
 # id -> (claimed?, category, technique, text, design_ref, extra note / not-applicable reason)
 CHECKS = {
